@@ -27,13 +27,20 @@ LEVEL_TEXT = ("Lean 4 theorems over every neighbour list, every ordered field, a
               "neighbours_current, evaluator_bindings_current) and, including earlier interpolate calls of other "
               "properties and arrays that arrive with a used temp_prop, over the staging of the requested property "
               "(missing_property_staged_as_zeros, interpolate_stages_requested_property, "
-              "interpolate_independent_of_history) about a hand-written model that transcribes the five "
+              "interpolate_independent_of_history) and over every shape and memory layout of the caller's "
+              "coordinate arrays (result_index_matches_point, squeezed_result_index_matches_point, "
+              "every_target_particle_is_returned, target_points_independent_of_layout: ravel on the way in, "
+              "reshape + squeeze on the way out) about a hand-written model that transcribes the five "
               "interpolation equations as folds and the Interpolator/SPHEvaluator bindings as a state machine; the model is "
               "tied to the run-time-compiled evaluators on every run by bit-exact differential execution at Float "
               "(values, summation densities, moment matrices, right-hand sides, solutions, binding states, the "
-              "temp_prop contents interpolate stages per source array given what was there before), and the "
+              "temp_prop contents interpolate stages per source array given what was there before, the target "
+              "particles made from N-d coordinate arrays in C/Fortran/permuted/strided/reversed layouts, the "
+              "un-flattened result), and the "
               "property's own predicate is evaluated by brute force on the real code, with the source values read "
-              "from the requested property itself (zeros for arrays lacking it), to produce replays.")
+              "from the requested property itself (zeros for arrays lacking it), entry idx judged at the caller's "
+              "(x[idx], y[idx], z[idx]), order1 volumes from a brute-force summation density over real, "
+              "Remote-tagged and periodic-image sources with rho not supplied, to produce replays.")
 LEVEL_NOTE = ("Trusted: Lean kernel, axioms propext/Classical.choice/Quot.sound; the hand-written model (checked by the "
               "correspondence: ~170 histories, several thousand destination points quick); kernel values are inputs "
               "(harness evaluates the pure-Python kernel classes; C08 covers them); exact-field arithmetic in place of IEEE "
@@ -41,4 +48,4 @@ LEVEL_NOTE = ("Trusted: Lean kernel, axioms propext/Classical.choice/Quot.sound;
               "gj_solve itself is property C13), the tie runs the real gj_solve model bit-exactly; LinkedListNNPS / serial "
               "cython backend only; histories respect the documented contract (same array names/order on rebinding, "
               "update() after in-place changes).")
-TIMEOUT = {'quick': 3600, 'thorough': 4 * 3600}
+TIMEOUT = {'quick': 1500, 'thorough': 3600}
